@@ -1,6 +1,7 @@
 package oracle
 
 import (
+	abci "github.com/cometbft/cometbft/abci/types"
 	"bytes"
 	"fmt"
 
@@ -56,6 +57,7 @@ func (m *C18) After(w *world.World, a *world.Action, r *world.StepResult) *Viola
 		if err1 != nil || err2 != nil {
 			return violf(P, "marshal", "cannot marshal block responses: %v %v", err1, err2)
 		}
+		b1, b2 = stripLogs(b1), stripLogs(b2)
 		if !bytes.Equal(b1, b2) {
 			return violf(P, "response-differs", "chain %q height %d: ResponseFinalizeBlock differs between replicas (%s)", r.Chain, r.Block.Height, firstDiff(r, rr))
 		}
@@ -146,3 +148,23 @@ func firstDiff(a, b *world.StepResult) string {
 
 func (m *C18) NonTrivial(*world.World) bool { return m.tieBlocks > 0 }
 func (m *C18) Checks() int                  { return m.n }
+
+// stripLogs blanks the Log and Info strings of the transaction results: CometBFT documents both as
+// non-deterministic and leaves them out of the results hash (a recovered panic puts a stack trace with goroutine
+// ids and addresses into Log); codes, data, gas, events and everything else in the response stay compared.
+func stripLogs(bz []byte) []byte {
+	var resp abci.ResponseFinalizeBlock
+	if err := resp.Unmarshal(bz); err != nil {
+		return bz
+	}
+	for _, tr := range resp.TxResults {
+		if tr != nil {
+			tr.Log, tr.Info = "", ""
+		}
+	}
+	out, err := resp.Marshal()
+	if err != nil {
+		return bz
+	}
+	return out
+}
